@@ -29,7 +29,10 @@ CONSTANTS Shapes,      \* set of <<H,W>>: frames of the 2D masks explored (every
           Geoms,       \* set of <<s, cy, cx, R>>: pixel scale s (even), profile centre (cy,cx), radial minimum R, in units
           PGeoms,      \* set of <<s, cy, cx>> for project_grid on 2D grids
           Depths,      \* nesting depths of transform-decorated calls
-          Lattice      \* coordinates (units) of the single points explored exhaustively for the radial minimum
+          Lattice,     \* coordinates (units) of the single points explored exhaustively for the radial minimum
+          TinyEps,     \* indices of the tiny lengths eps (1e-13, 1e-15, 2^-60, ...: far below any lattice unit) ...
+          TinyDirs,    \* ... and small integer directions <<dy,dx>>: the coordinate eps*(dy,dx), a hair away from the centre
+          TinyShapes   \* frames of the 2D grids whose central pixel is such a coordinate
 
 Zero == -1   \* source tag "this position holds 0" (a masked position of a native view)
 
@@ -109,6 +112,10 @@ RadiusIs(q, RS) == InRange(q) /\ Abs(Dot(q, q) - RS * RS) <= N1(q) + 2
 \* q parallel to p with the same sense: Cross(t, p) = 0, so |Cross(q, p)| = |Cross(e, p)| <= N1(p) / 2.
 Parallel(q, p) == InRange(q) /\ Abs(Cross(q, p)) <= (N1(p) + 1) \div 2 + 1 /\ Dot(q, p) > 0
 MovedToMinimum(p, q, R, S) == RadiusIs(q, R * S) /\ Parallel(q, p)
+\* A coordinate a hair away from the centre (a rounding residue, eps*(dy,dx) with eps far below the lattice unit) is not at
+\* the centre: it is closer than the minimum for every R > 0 -- never Far -- and its ray is the integer direction (dy,dx);
+\* collinearity and sense do not depend on the length of p, so the same postcondition applies with p := (dy,dx).
+TinyToMinimum(d, q, R, S) == d # <<0, 0>> /\ MovedToMinimum(d, q, R, S)
 \* a coordinate exactly at the centre has no ray: any point of the circle of radius R is "radially outward at exactly
 \* the minimum"
 CentreToMinimum(q, R, S) == RadiusIs(q, R * S)
@@ -200,13 +207,23 @@ RelocInst ==
                     : sh \in MidShapes } : g \in Geoms, a \in {"reloc", "stack_array", "stack_grid"} }
     \cup { Mk("reloc", gk, "pairs", FALSE, 1, 1, AllCells(1), << 0, y, x, R >>, 0, FALSE)
              : gk \in {"irr", "nd"}, y \in Lattice, x \in Lattice, R \in { g[4] : g \in Geoms } }
-Instances == WrapInst \cup ProjectInst \cup TransformInst \cup RelocInst
+\* a coordinate eps*(dy,dx): par = << -e, dy, dx, R >> (e the index of eps); as a one-point set, and as the central pixel
+\* of a small 2D grid (pixel scale 2 units, grid and profile centred on the origin)
+TinyInst ==
+    { Mk("reloc", gk, "pairs", FALSE, 1, 1, AllCells(1), << -e, d[1], d[2], R >>, 0, FALSE)
+        : gk \in {"irr", "nd"}, e \in TinyEps, d \in TinyDirs, R \in { g[4] : g \in Geoms } }
+    \cup UNION { UNION { { Mk(a, "g2d", ResultKindOf(a), FALSE, sh[1], sh[2], u, << -e, d[1], d[2], R >>, 1, FALSE) : u \in Masks(sh) }
+                         : sh \in TinyShapes } : a \in {"reloc", "stack_array", "stack_grid"}, e \in TinyEps, d \in TinyDirs,
+                                                  R \in { g[4] : g \in Geoms } }
+Instances == WrapInst \cup ProjectInst \cup TransformInst \cup RelocInst \cup TinyInst
 
 Init == /\ inst \in Instances
         /\ phase = "call"
         /\ obs = << >>
 
 NPts == Cardinality(inst.u)
+IsTiny == inst.par[1] < 0
+TinyDir == << inst.par[2], inst.par[3] >>
 \* pixel centres of the instance's grid relative to the profile centre (units), slim order; scale s = par[1] (even)
 PixelRel(c, h, w, par) ==
     << (h - 1 - 2 * c[1]) * (par[1] \div 2) - par[2], (2 * c[2] - (w - 1)) * (par[1] \div 2) - par[3] >>
@@ -282,7 +299,7 @@ TransformOnce == Returned /\ inst.api = "transform" => obs.walked = TransformsMe
 \* radial minimum, on the exact lattice (S = 1): the multiply-by-R/r formulation meets the postcondition at every point
 \* off the centre that has an integer radius; far points are fixed points
 ScaleMeetsPostcondition ==
-    Returned /\ inst.api \in {"reloc", "stack_array", "stack_grid"} =>
+    Returned /\ inst.api \in {"reloc", "stack_array", "stack_grid"} /\ ~ IsTiny =>
         LET R == inst.par[4] S == 60 IN
         \A k \in DOMAIN RelPoints :
            LET p == RelPoints[k] IN
@@ -292,14 +309,14 @@ ScaleMeetsPostcondition ==
 \* sqrt(2) R -- is not; a point moved to the minimum is not "closer than the minimum" any more (the relocation is
 \* idempotent on the lattice directions)
 CentreCase ==
-    Returned /\ inst.api = "reloc" =>
+    Returned /\ inst.api = "reloc" /\ ~ IsTiny =>
         LET R == inst.par[4] S == 60 IN
         /\ \A d \in Dirs5 : CentreToMinimum(Scal(R * (S \div 5), d), R, S)
         /\ ~ CentreToMinimum(<< R * S, R * S >>, R, S)
         /\ \A d \in Dirs5 : R % 5 = 0 => Far(Scal(R \div 5, d), R)
 \* the postcondition pins the point: moving along the ray by 1% of R, or turning it by a 3-4-5 angle, is rejected
 PostconditionIsTight ==
-    Returned /\ inst.api = "reloc" /\ inst.gk # "g2d" =>
+    Returned /\ inst.api = "reloc" /\ inst.gk # "g2d" /\ ~ IsTiny =>
         LET R == inst.par[4] S == 600 p == RelPoints[1] IN
         (~ Far(p, R) /\ p # <<0, 0>> /\ HasIntRadius(p)) =>
             LET q == ScaleByRatio(p, R, S)
@@ -307,6 +324,21 @@ PostconditionIsTight ==
                /\ ~ MovedToMinimum(p, << (q[1] * 99) \div 100, (q[2] * 99) \div 100 >>, R, S)
                /\ ~ MovedToMinimum(p, << (3 * q[1] - 4 * q[2]) \div 5, (4 * q[1] + 3 * q[2]) \div 5 >>, R, S)
                /\ ~ MovedToMinimum(p, Scal(-1, q), R, S)
+
+\* a coordinate a hair away from the centre is judged by its direction alone: multiply-by-R/r lands it on the circle whatever
+\* its length (the same q for d, 2d, 3d), the postcondition rejects a result that stays near the centre (a floored radius:
+\* q/10, q/1000, 0) or leaves along the diagonal, and such a coordinate is never at the centre
+TinyJudgedByDirection ==
+    Returned /\ IsTiny /\ HasIntRadius(TinyDir) =>
+        LET R == inst.par[4] S == 600 d == TinyDir r == IntRadius(TinyDir)
+            q == << Rounded(d[1] * R * S, r), Rounded(d[2] * R * S, r) >>
+        IN /\ d # <<0, 0>>
+           /\ TinyToMinimum(d, q, R, S)
+           /\ \A k \in 1 .. 3 : MovedToMinimum(Scal(k, d), q, R, S)
+           /\ ~ TinyToMinimum(d, << q[1] \div 10, q[2] \div 10 >>, R, S)
+           /\ ~ TinyToMinimum(d, << q[1] \div 1000, q[2] \div 1000 >>, R, S)
+           /\ ~ TinyToMinimum(d, <<0, 0>>, R, S)
+           /\ (d[1] = 0 \/ d[2] = 0) => ~ TinyToMinimum(d, << (R * S * 7) \div 10, (R * S * 7) \div 10 >>, R, S)
 
 \* projected lines: the line specification accepts the ray in every direction (the statement does not fix one), with
 \* or without the centre point, and rejects a ray that does not start at the centre, a wrong spacing and a reversed order
